@@ -472,6 +472,17 @@ func solveOne(u *UnitResult, o *OblResult, cfg solveConfig) (disagreement string
 			}
 		}
 	}
+	// the thorough tier must not be weaker than the quick one: an obligation that none of the three complete runs
+	// decided gets the quick tier's portfolio (E-matching only, no extensionality, relaxed query, other seeds)
+	if o.Status == "unknown" {
+		cfgQ := cfg
+		cfgQ.all = false
+		o.Status, o.Backend, o.Output, o.Model = "", "", "", ""
+		o.Tried = append(o.Tried, "portfolio")
+		ms0 := o.Ms
+		solveOne(u, o, cfgQ)
+		o.Ms += ms0
+	}
 	hasSat, hasUnsat := false, false
 	for _, v := range verdicts {
 		if v == "sat" {
